@@ -298,7 +298,10 @@ def check_flag_readings(acc):
             outs[name] = res
         acc.trace(len(libs) * 9)
         acc.case(nontrivial_key=("flag-reading", repr(flag)))
-        if outs["flag"] not in (outs["True"], outs["False"]):
+        if flag in (0, 1) and outs["flag"] != outs[str(bool(flag))]:
+            # 1 == True and 0 == False: the same configuration value, spelled as an int
+            acc.violation({"oracle": "flag_1_is_on_and_0_is_off", "comments_on_top": repr(flag)}, {"case": {"flag_reading": repr(flag)}, "observed": outs["flag"][:6], "expected": outs[str(bool(flag))][:6]})
+        elif outs["flag"] not in (outs["True"], outs["False"]):
             acc.violation({"oracle": "a_non_bool_flag_means_one_thing", "comments_on_top": repr(flag)}, {"case": {"flag_reading": repr(flag)}, "observed": outs["flag"][:6], "expected": "as preserve_comments_on_top=True throughout, or as False throughout"})
 
 
